@@ -564,7 +564,38 @@ impl Reader {
         writer_guid,
         writer_seq_num,
       ),
-      Err(e) => debug!("Parsing DATA to DDSData failed: {}", e),
+      Err(e) => {
+        debug!("Parsing DATA to DDSData failed: {}", e);
+        // The writer has used up this sequence number for a change that we cannot
+        // make anything of, and it would only send the same again. Treat the
+        // change as irrelevant, as if a GAP had said so. Otherwise a Reliable
+        // Reader would request it forever and never hand over anything that
+        // comes after it.
+        self.skip_unusable_change(writer_guid, writer_seq_num);
+      }
+    }
+  }
+
+  fn skip_unusable_change(&mut self, writer_guid: GUID, seq_num: SequenceNumber) {
+    if self.like_stateless || seq_num <= SequenceNumber::new(0) {
+      return;
+    }
+    let (ackable_before, all_ackable_before) = match self.matched_writer_mut(writer_guid) {
+      Some(writer_proxy) => {
+        let ackable_before = writer_proxy.all_ackable_before();
+        writer_proxy.set_irrelevant_change(seq_num);
+        (ackable_before, writer_proxy.all_ackable_before())
+      }
+      None => return,
+    };
+    // Like in GAP processing: the marker is shared by all the local Readers of
+    // the topic, so look also at our own progress.
+    let marker_moved = self
+      .acquire_the_topic_cache_guard()
+      .mark_reliably_received_before(writer_guid, all_ackable_before)
+      || all_ackable_before > ackable_before;
+    if marker_moved {
+      self.notify_cache_change();
     }
   }
 
